@@ -17,6 +17,7 @@ import (
 	"github.com/arloliu/go-secs/v2/verifsim/core"
 	"github.com/arloliu/go-secs/v2/verifsim/refhsms"
 	"github.com/arloliu/go-secs/v2/verifsim/rig"
+	"github.com/arloliu/go-secs/v2/verifsim/simhook"
 )
 
 // peer liveness scripts
@@ -27,12 +28,13 @@ const (
 	sOutstanding
 	sIntermittent
 	sDarkWithLocalSends
+	sLateLife
 	nScripts
 )
 
 var lifeNames = []string{"data frame inside the T6 window", "Linktest.rsp arriving after T6 (late answer)", "Linktest.req of the peer inside the T6 window", "undefined SType frame inside the T6 window"}
 
-var scriptNames = []string{"silent", "answers-probes", "slow-but-alive", "reply-outstanding", "intermittent", "dark-peer-local-sends"}
+var scriptNames = []string{"silent", "answers-probes", "slow-but-alive", "reply-outstanding", "intermittent", "dark-peer-local-sends", "late-sign-of-life-at-the-threshold"}
 
 type scenario struct {
 	Script   int
@@ -93,6 +95,7 @@ type harness struct {
 	localSends     []time.Duration
 	reselAt        time.Duration // arrival of the peer's second Select.req at the library (0 = none)
 	usedLn         int
+	lateArmed      bool
 	prologueOn     bool // the prologue generation is running
 	prologueDone   bool
 }
@@ -108,6 +111,9 @@ func genScenario(t *core.Tape) scenario {
 	sc.Supp = t.Choose("scn", 2) == 0
 	if sc.Script == sIntermittent && sc.N < 2 {
 		sc.N = 2
+	}
+	if sc.Script == sLateLife {
+		sc.Supp = true
 	}
 	sc.Prologue = t.Weighted("scn", 4, 1, 1)
 	sc.Redial = !sc.Active && t.Choose("scn", 3) == 0
@@ -205,6 +211,7 @@ func (h *harness) describe() map[string]any {
 
 // monitor starts the script once the session is Selected.
 func (h *harness) monitor() {
+	h.w.TrackRoles([][2]string{{"select@hsmsss/transport_procedures.go", "linktest"}})
 	if h.sc.Prologue != 0 && !h.prologueDone {
 		h.prologue()
 
@@ -254,6 +261,9 @@ func (h *harness) monitor() {
 	case sOutstanding:
 		trafficUntil = h.selAt
 		h.endAt = h.selAt + 6*sc.I + 4*sc.T6 + time.Second
+	case sLateLife:
+		trafficUntil = h.selAt
+		h.endAt = h.selAt + time.Duration(2*sc.N+4)*(2*sc.I+sc.T6) + 2*time.Second
 	}
 	// application W-bit sends (answered at once) and peer primaries, only before trafficUntil
 	for _, at := range sc.Traffic {
@@ -430,6 +440,27 @@ func (h *harness) onFrame(c *refhsms.Conn, f refhsms.RxFrame) {
 					c.SendFrame(refhsms.Header{Session: 0xFFFF, SType: 8, Sys: h.r.P.NextSys()}, nil)
 				}
 			})
+		case sLateLife:
+			// never answers. When the threshold-th consecutive probe is about to time out, the linktest
+			// goroutine is withheld for 2 ms at one of its next atomic steps (walked by the tape through
+			// the failure accounting and the pre-disconnect re-check) and one data frame arrives 1 ms
+			// after the timeout: the library either drops the link at that timeout or credits the sign of
+			// life — and then, the peer staying silent, drops it after the threshold-th further timeout
+			if k == sc.N && !h.lateArmed {
+				h.lateArmed = true
+				exp := p.at + sc.T6 - w.Now()
+				skip := w.T.Choose("peer", 24)
+				w.After(exp-time.Millisecond, "arm-linktest-hold", func() {
+					w.HoldNth = append(w.HoldNth, &core.NthHold{Prefix: "atomic", Skip: skip, D: 2 * time.Millisecond, Label: "linktest",
+						Filter: func(g *simhook.G) bool { return w.Roles[g.ID] == "linktest" }})
+				})
+				w.After(exp, "late-sign-of-life", func() {
+					if c.Alive() {
+						w.Fault("sign-of-life-right-after-the-threshold-timeout")
+						c.SendFrame(refhsms.DataHeader(h.sc.Sess, 6, 11, false, h.r.P.NextSys()), refhsms.ASCII("late"))
+					}
+				})
+			}
 		case sIntermittent:
 			// two rounds of (N-1 ignored, 1 answered), then silence
 			if k <= 2*sc.N && k%sc.N == 0 {
@@ -581,6 +612,28 @@ func (h *harness) final(reason string) {
 		}
 	}
 	switch sc.Script {
+	case sLateLife:
+		if closed < 0 {
+			last := time.Duration(-1)
+			if n := len(h.probes); n > 0 {
+				last = h.probes[n-1].at
+			}
+			w.Fail("NOT_DROPPED", "after one sign of life right after the threshold-th timeout the peer stayed silent for good: the link is still up at %v (%d probes, the last one written at %v — probing has stopped)%s", w.Now(), len(h.probes), last, ctx)
+
+			return
+		}
+		ok := false
+		for i, p := range h.probes {
+			if want := p.at + sc.T6; i >= sc.N-1 && closed >= want && closed <= want+eps+2*time.Millisecond { // (+ the 2 ms the linktest goroutine may have been withheld)
+				ok = true
+			}
+		}
+		if !ok {
+			w.Fail("DROP_TIME", "dropped at %v, which is not the T6 timeout of any probe that ends a run of %d unanswered probes%s", closed, sc.N, ctx)
+
+			return
+		}
+		w.Probe("late_sign_of_life_credited_or_missed_then_dropped")
 	case sSilent:
 		if !spacing(unanswered) {
 			return
